@@ -42,6 +42,7 @@ class Buf:
         self.live = True
         self.fill = True          # scanner may read for it
         self.user_owned = False
+        self.bol_known = True
 
 
 LEGIT_FATAL_PUSHBACK = 'flex scanner push-back overflow'
@@ -385,8 +386,14 @@ class Model:
         if not eof:
             self.v('wrap-without-eof', ev, 'yywrap consulted although the source did not report end of input')
         if b:
-            b.eof = False
-            b.bol = True      # the scanner restarted the buffer on reaching its end
+            b.eof = False if b.fill else True
+            if b.fill:
+                b.bol = True  # the scanner restarted the buffer on reaching its end
+            else:
+                # an exhausted in-memory buffer: whether its flag is reset
+                # depends on the path taken (yylex / yyinput); nothing more
+                # will be matched from it, so the flag is of no consequence
+                b.bol_known = False
         else:
             self.orphan_eof = False
         self.wrap_op = ev
@@ -568,6 +575,8 @@ class Model:
             self.check_lineno(ev, 'after op')
             b = self.cur()
             if b is not None and ev.get('bol', -1) >= 0 and self.sc.bol_needed():
+                if not b.bol_known:
+                    b.bol = bool(ev['bol'])
                 if bool(ev['bol']) != b.bol:
                     self.v('bol', ev, 'yyatbol()=%d expected %d' % (ev['bol'], b.bol))
                     b.bol = bool(ev['bol'])
